@@ -55,7 +55,11 @@ class FixEmptySequenceComparison(
                         match maybe_parent:
                             case cst.If() | cst.Assert():
                                 return (
-                                    comp_var
+                                    # `if (a.b\n    .c != []):` spans lines inside its parentheses: they stay
+                                    comp_var.with_changes(
+                                        lpar=[*original_node.lpar, *comp_var.lpar],
+                                        rpar=[*comp_var.rpar, *original_node.rpar],
+                                    )
                                     if isinstance(target.operator, cst.NotEqual)
                                     else negated
                                 )
